@@ -74,9 +74,9 @@ def install():
     real_gpr = helpers.get_pool_results
     _REAL["get_pool_results"] = real_gpr
 
-    def get_pool_results_tap(executors):
+    def get_pool_results_tap(executors, *a, **k):
         sim = kernel.ACTIVE
-        res = real_gpr(executors)
+        res = real_gpr(executors, *a, **k)
         if sim is not None and not sim.aborting:
             hook = sim.obs.get("on_pool_results")
             if hook is not None:
@@ -89,14 +89,14 @@ def install():
     real_gsp = abstract.OptimizationAbstract._greedy_select_population
 
     @functools.wraps(real_gsp)
-    def gsp_tap(self, new_population):
+    def gsp_tap(self, new_population, *a, **k):
         sim = kernel.ACTIVE
         hook = sim.obs.get("on_greedy") if sim is not None and not sim.aborting else None
         if hook is None:
-            return real_gsp(self, new_population)
+            return real_gsp(self, new_population, *a, **k)
         old = list(self._population)
         new = list(new_population)
-        out = real_gsp(self, new_population)
+        out = real_gsp(self, new_population, *a, **k)
         hook(sim, self, old, new, list(self._population))
         return out
 
